@@ -267,7 +267,9 @@ func runCLI(ctx *h.Ctx, e *env) {
 			k.Count("cli_signalled", 1)
 			cliViolation(k, "cli-signal", fmt.Sprintf("poryscript CLI (%s) was killed by a signal instead of exiting with status 0 or 1", c.name), details)
 		case c.wantExit >= 0:
-			if exit != c.wantExit {
+			if strings.Contains(stderr, "goroutine ") || strings.Contains(stderr, "panic:") || strings.Contains(stderr, "fatal error:") {
+				cliViolation(k, "cli-crash", fmt.Sprintf("poryscript CLI (%s) crashed (exit status %d): %q", c.name, exit, head(stderr, 300)), details)
+			} else if exit != c.wantExit {
 				cliViolation(k, "cli-exit-unexpected", fmt.Sprintf("poryscript CLI (%s) exited with status %d, expected %d: %q", c.name, exit, c.wantExit, head(stderr, 200)), details)
 			} else if exit == 1 && !hasErrorLine(stderr) {
 				cliViolation(k, "cli-exit-1-unmarked", fmt.Sprintf("poryscript CLI (%s) exited with status 1 but no stderr line starts with \"PORYSCRIPT ERROR\": %q", c.name, head(stderr, 200)), details)
